@@ -396,7 +396,8 @@ def gen_data(rng, spec, cfg):
         rng.shuffle(vals)
         return {"kind": "intlist", "vals": vals, "tuple": rng.random() < 0.15}
     if kind == "mixedlist":
-        return {"kind": "mixedlist", "vals": [1, 2.5, -3]}
+        # ints and floats mixed; in two of the shapes the smallest and the largest element are both ints
+        return {"kind": "mixedlist", "vals": rng.choice([[1, 2.5, -3], [0, 0.25, 0.5, 1], [-3, 1.5, 4], [2, 2.5]])}
     if kind == "boollist":
         return {"kind": "boollist", "vals": [bool(rng.randint(0, 1)) for _ in range(max(1, n))]}
     if kind == "floatlist":
@@ -578,7 +579,7 @@ def build_data(d):
     if kind == "boollist":
         return list(d["vals"]), ("ints", [int(v) for v in d["vals"]])
     if kind == "mixedlist":
-        return list(d["vals"]), ("mixed",)
+        return list(d["vals"]), ("mixed", list(d["vals"]))
     if kind == "floatlist":
         fl = [struct.unpack("<d", bytes.fromhex(h))[0] for h in d["hex"]]
         return fl, ("typed", 10, [struct.pack("<d", v) for v in fl])
@@ -946,7 +947,7 @@ def readback(data, exps, segs):
         key = sorted(c["flags"])[0] if c["flags"] else None
         parts = c["parts"]
         count = sum(len(p[1]) if p[0] in ("ints", "ts") else len(p[2]) if p[0] == "typed" else
-                    3 if p[0] == "mixed" else 0 for p in parts)
+                    len(p[1]) if p[0] == "mixed" else 0 for p in parts)
         try:
             arr, rawarr = ch[:], chr_[:]
         except Exception as e:
@@ -959,7 +960,7 @@ def readback(data, exps, segs):
         if not kinds:
             continue                                   # only empty untyped data: nothing more to compare
         if kinds == {"mixed"} or kinds == {"mixed", "ints"}:
-            want = [float(v) for p in parts for v in ([1, 2.5, -3] if p[0] == "mixed" else p[1])]
+            want = [float(v) for p in parts for v in p[1]]
             if [float(v) for v in arr] != want:
                 out.append((key or "readback-values", "values of channel %r (list mixing int and float)" % path,
                             want, [float(v) for v in arr]))
